@@ -1201,6 +1201,57 @@ def check_from_networkx_plain(case):
     return out
 
 
+def check_from_networkx_multi(case):
+    """networkx objects that ARE networkx.Graph instances without being plain
+    simple graphs (multigraphs with parallel edges, directed graphs): the
+    conversion either refuses (ValueError / TypeError) or delivers a graph
+    whose views agree with its own edge listing, which for a multigraph is
+    the set of its edges."""
+    import networkx
+    from cnfgen.graphs import Graph
+    n, edges = case['n'], [tuple(e) for e in case['edges']]
+    out = []
+    variants = []
+    M = networkx.MultiGraph()
+    M.add_nodes_from(range(1, n + 1))
+    for (u, v) in edges:
+        M.add_edge(u, v)
+        M.add_edge(v, u)              # a parallel edge
+    variants.append(('multigraph', M, sorted(set(edges))))
+    D = networkx.DiGraph()
+    D.add_nodes_from(range(1, n + 1))
+    for k, (u, v) in enumerate(edges):
+        D.add_edge(u, v)
+        if k % 2:
+            D.add_edge(v, u)
+    variants.append(('digraph', D, None))
+    for name, X, want in variants:
+        try:
+            G = Graph.from_networkx(X)
+        except (ValueError, TypeError):
+            continue
+        except Exception as e:
+            out.append({'key': 'Graph.from_networkx:%s:exception:%s' % (name, type(e).__name__),
+                        'what': repr(e), 'case': dict(case)})
+            continue
+        try:
+            listing = sorted((min(a, b), max(a, b)) for (a, b) in G.edges())
+        except Exception as e:
+            out.append({'key': 'Graph.from_networkx:%s:edges:exception:%s' % (name, type(e).__name__),
+                        'what': repr(e), 'case': dict(case)})
+            continue
+        if want is not None and listing != want:
+            out.append({'key': 'Graph.from_networkx:%s:edges-differ' % name,
+                        'what': 'edges %r, the multigraph has the edges %r' % (listing, want), 'case': dict(case)})
+            continue
+        V = Views('Graph', prefix='from_networkx(%s):' % name)
+        check_simple(G, n, set(listing), V, roundtrip=False)
+        for sym, what in V.problems[:3]:
+            out.append({'key': sym, 'what': what + ' [Graph.from_networkx of a %s with edges %r]' % (name, edges),
+                        'case': dict(case)})
+    return out
+
+
 def held_view_histories(kind, depth):
     """Every history of <= depth operations from small start graphs, as
     (start, [ops]); the alphabet depends on the current size."""
@@ -1310,6 +1361,9 @@ def run_extra(args, R):
             R.stats['from_networkx_orders'] += 10
             R.stats['executions'] += 10
             R.case(sample=case if R.evals % 40 == 0 else None, nontrivial=n > 0)
+            case = {'part': 'nxmulti', 'n': n, 'edges': [list(e) for e in es]}
+            R.extend(check_from_networkx_multi(case))
+            R.stats['executions'] += 2
         for es in scope_.digraphs(n, loops=False):
             if n <= 2 or len(es) <= 3:
                 case = {'part': 'nxplain', 'n': n, 'edges': [list(e) for e in es], 'directed': True}
@@ -1429,6 +1483,8 @@ def replay(case):
         return check_held_view(case)
     if case.get('part') == 'nxplain':
         return check_from_networkx_plain(case)
+    if case.get('part') == 'nxmulti':
+        return check_from_networkx_multi(case)
     OBS.clear()
     st0, v = _initial_or_violation(case)
     if v is not None:
